@@ -4,6 +4,17 @@
 K = {"name": "TestKnown", "enum": True}
 
 CHECKS = {
+    "C09": {
+        "level": "exploration",
+        "tests": [
+            {"name": "TestC09Flow", "checks": [3000, 15000], "shards": [2, 16], "floor": 0.8},
+            {"name": "TestC09Truthiness", "enum": True},
+            {"name": "TestC09Loops", "enum": True},
+            K,
+        ],
+        "assumptions": ["the reference interpreter (harness/stmt.go, rm.go) is the executable reading of C09",
+                        "loop variables and `loop` are never read after their loop; maps are iterated only with <= 1 entry"],
+    },
     "C08": {
         "level": "exploration",
         "tests": [
